@@ -4,6 +4,7 @@ package c17
 import (
 	"bufio"
 	"bytes"
+	"encoding/binary"
 	"fmt"
 	"io"
 	"strings"
@@ -70,6 +71,38 @@ type Case struct {
 	// Hdr, when 128 bytes long, supplies header bytes 8..99 (version, class, colour spaces, date, platform, flags,
 	// device, intent, illuminant, creator, ID): legal values that have nothing to do with the description
 	Hdr []byte `json:"hdr,omitempty"`
+	// After > 0: before the case, Description() is asked of a DAMAGED profile (variant After-1 of damagedBefore):
+	// a multi-localised tag whose first records are fine and whose later record points outside the tag, a text
+	// description cut short, a tag of another type under the 'desc' signature.  Its answer is ignored.
+	After int `json:"after,omitempty"`
+}
+
+func damagedBefore(i int) {
+	good := build.Mluc([]build.MlucRec{{Lang: [2]byte{'f', 'r'}, Country: [2]byte{'F', 'R'}, Text: "Ancien scanner"}, {Lang: [2]byte{'e', 'n'}, Country: [2]byte{'G', 'B'}, Text: "Old Scanner"}, {Lang: [2]byte{'d', 'e'}, Country: [2]byte{'D', 'E'}, Text: "Alter Scanner"}}, nil, nil, 0)
+	var tag []byte
+	switch i % 5 {
+	case 0: // the last record's length runs past the tag
+		tag = append([]byte(nil), good...)
+		binary.BigEndian.PutUint32(tag[16+2*12+4:], 0x7FFFFFF0)
+	case 1: // the second record's offset lies outside
+		tag = append([]byte(nil), good...)
+		binary.BigEndian.PutUint32(tag[16+12+8:], uint32(len(tag)+50))
+	case 2: // cut in the middle of the record table
+		tag = good[:16+12+6]
+	case 3: // a text description whose count exceeds the data
+		tag = build.TextDesc("short")
+		binary.BigEndian.PutUint32(tag[8:], 4000)
+	default: // odd string length
+		tag = append([]byte(nil), good...)
+		binary.BigEndian.PutUint32(tag[16+4:], 7)
+	}
+	prof := build.SimpleProfile(tag, i%3*8)
+	ev.Guard(func() {
+		if p, err := icc.NewProfileReader(bytes.NewReader(prof)).ReadProfile(); err == nil && p != nil {
+			p.Description()
+			p.Description()
+		}
+	})
 }
 
 const descSig = 0x64657363
@@ -252,6 +285,9 @@ func classes(c Case) []string {
 }
 
 func check(c Case) (kind, what string) {
+	if c.After > 0 {
+		damagedBefore(c.After - 1)
+	}
 	prof, _ := c.build()
 	var p *icc.Profile
 	var err error
@@ -626,6 +662,9 @@ func gen(rt *rapid.T) Case {
 		}
 		c.Gap = rapid.SampledFrom([]int{0, 0, 2, 4}).Draw(rt, "gap")
 	}
+	if rapid.IntRange(0, 5).Draw(rt, "afterdamaged") == 0 {
+		c.After = rapid.IntRange(1, 15).Draw(rt, "damaged")
+	}
 	c.Via = rapid.SampledFrom([]string{"reader", "reader", "positioned", "positioned", "png", "jpeg", "buffer-reused", "metadata-reused"}).Draw(rt, "via")
 	return c
 }
@@ -642,7 +681,7 @@ func TestC17(t *testing.T) {
 		fmt.Println("REPLAY case passed")
 		return
 	}
-	ev.Rule("rapid grammar-built ICC profiles: 0-64 tags with distinct signatures, 'desc' at a random table position or absent, data blocks laid out in table/reverse/random order, blocks shared between tags, 0-3 padding bytes between blocks and after the table, trailer bytes; v2 textDescription (0-2000 printable ASCII; half with different text in the Unicode and ScriptCode parts, the ASCII part sometimes empty) or v4 mluc with 1-40 records (languages incl. 0/1/several 'en'), strings in table/reverse/random order, shared, overlapping (suffix), with gaps; text from ASCII, BMP and surrogate-pair ranges; read through icc.NewProfileReader from offset 0 or from a standard reader positioned after container bytes, or embedded in a PNG (iCCP) / JPEG (2 APP2 chunks) through meta.Data.ICCProfile, or from a *bytes.Buffer that is reused for another profile and then overwritten before the description is asked for. non-trivial = distinct case with >= 2 mluc records, a string not immediately after its record, data order != table order, shared or padded blocks, or zero tags")
+	ev.Rule("rapid grammar-built ICC profiles: 0-64 tags with distinct signatures, 'desc' at a random table position or absent, data blocks laid out in table/reverse/random order, blocks shared between tags, 0-3 padding bytes between blocks and after the table, trailer bytes; v2 textDescription (0-2000 printable ASCII; half with different text in the Unicode and ScriptCode parts, the ASCII part sometimes empty) or v4 mluc with 1-40 records (languages incl. 0/1/several 'en'), strings in table/reverse/random order, shared, overlapping (suffix), with gaps; text from ASCII, BMP and surrogate-pair ranges; read through icc.NewProfileReader from offset 0 or from a standard reader positioned after container bytes, or embedded in a PNG (iCCP) / JPEG (2 APP2 chunks) through meta.Data.ICCProfile, or from a *bytes.Buffer that is reused for another profile and then overwritten before the description is asked for. A sixth of the cases directly follow a Description() call on a damaged profile (a record pointing outside its tag, a cut record table, an overlong text count), whose answer is ignored. non-trivial = distinct case with >= 2 mluc records, a string not immediately after its record, data order != table order, shared or padded blocks, or zero tags")
 	ev.Assume("harness ICC/mluc builder; Description must be a member of the allowed set (any 'en' record, else any record)")
 	// deterministic corner cases first
 	fixed := []Case{
